@@ -269,4 +269,149 @@ def cmpKeys : List IntOrStr → List IntOrStr → Option Ordering
   | a :: as, b :: bs => if a = b then cmpKeys as bs else cmpIntOrStr a b
 -- --- end T6
 
+/-! --- T4: dictionary-valued code over an ABSTRACT numeric value type, exceptions with their CLASS (harness/translate_t4.py).
+    Every definition below is compared with CPython in `harness/prelude_check.py` (ops `t4_*` of the driver, run at `ν = Rat`).
+    Float rounding is NOT modelled: a Python `float` is a value of the abstract type `ν` (exact rationals in the driver). -/
+
+/-- the exception classes the translated code distinguishes -/
+inductive Exc4 where
+  | runtime   -- RuntimeError
+  | value     -- ValueError
+  | index     -- IndexError
+  | key       -- KeyError
+  | type      -- TypeError
+  | zeroDiv   -- ZeroDivisionError
+  deriving DecidableEq, Repr
+
+/-- the operations Python code uses on a numeric value (`+ - * /`, `==`, `<=`, `<`, int literals) -/
+class PyNum (ν : Type) extends Add ν, Sub ν, Mul ν, Div ν, BEq ν, IntCast ν where
+  /-- `a <= b` -/
+  le : ν → ν → Bool
+  /-- `a < b` -/
+  lt : ν → ν → Bool
+
+instance : PyNum Rat where
+  beq a b := decide (a = b)
+  le a b := decide (a ≤ b)
+  lt a b := decide (a < b)
+
+/-- `a / b` on numeric values: `ZeroDivisionError` for a zero divisor (Python floats, `Fraction`s) -/
+def divE {ν : Type} [PyNum ν] (a b : ν) : Except Exc4 ν :=
+  if b == ((0 : Int) : ν) then .error .zeroDiv else .ok (a / b)
+
+/-- `a / b` on two Python ints (true division): `ZeroDivisionError` for `b == 0` -/
+def divIntE {ν : Type} [PyNum ν] (a b : Int) : Except Exc4 ν :=
+  if b == 0 then .error .zeroDiv else .ok (((a : Int) : ν) / ((b : Int) : ν))
+
+/-- `sum(xs)` of numeric values (starts from the int 0, adds left to right) -/
+def sumNum {ν : Type} [PyNum ν] (xs : List ν) : ν := xs.foldl (· + ·) ((0 : Int) : ν)
+
+/-- `math.isclose(a, b)` (rel_tol = 1e-9, abs_tol = 0) on exact rationals -/
+def ratIsClose (a b : Rat) : Bool :=
+  let abs (q : Rat) : Rat := if q < 0 then -q else q
+  let m := if abs a < abs b then abs b else abs a
+  a == b || decide (abs (a - b) ≤ m / 1000000000)
+
+/-- a `for` loop whose body may raise -/
+def foldlE {σ α : Type} (f : σ → α → Except Exc4 σ) : σ → List α → Except Exc4 σ
+  | s, [] => .ok s
+  | s, x :: xs => (f s x).bind (fun s' => foldlE f s' xs)
+
+/-- `[f(x) for x in xs]` / `tuple(map(f, xs))` where `f` may raise: the first exception aborts -/
+def mapE {α β : Type} (f : α → Except Exc4 β) : List α → Except Exc4 (List β)
+  | [] => .ok []
+  | x :: xs => (f x).bind (fun y => (mapE f xs).bind (fun ys => .ok (y :: ys)))
+
+/-- `xs[i]` on a list / tuple / the list of a dict's keys: negative indices count from the end, `IndexError` outside -/
+def indexE {α : Type} (xs : List α) (i : Int) : Except Exc4 α :=
+  match (if 0 ≤ i then xs[i.toNat]? else if 0 ≤ i + xs.length then xs[(i + xs.length).toNat]? else none) with
+  | some x => .ok x
+  | none => .error .index
+
+/-- `max(xs)` of a list of ints: `ValueError` when empty -/
+def maxListE : List Int → Except Exc4 Int
+  | [] => .error .value
+  | x :: xs => .ok (xs.foldl max x)
+
+/-- the number of distinct elements: an element counts where it occurs for the LAST time -/
+def distinctCount {α : Type} [BEq α] : List α → Nat
+  | [] => 0
+  | x :: xs => (if xs.contains x then 0 else 1) + distinctCount xs
+
+/-- `len(set(xs))`: the number of distinct elements (independent of the set's iteration order) -/
+def lenSet {α : Type} [BEq α] (xs : List α) : Int := ((distinctCount xs : Nat) : Int)
+
+/-- value of an ASCII decimal digit -/
+def digitVal? (c : Char) : Option Nat :=
+  if 48 ≤ c.toNat ∧ c.toNat ≤ 57 then some (c.toNat - 48) else none
+
+def parseNatAux : Nat → List Char → Option Nat
+  | acc, [] => some acc
+  | acc, c :: cs =>
+    match digitVal? c with
+    | some d => parseNatAux (10 * acc + d) cs
+    | none => none
+
+/-- a non-empty string of ASCII digits as a number -/
+def parseNat? : Str → Option Nat
+  | [] => none
+  | c :: cs => parseNatAux 0 (c :: cs)
+
+/-- `int(s)` as an optional value -/
+def intOfStr? : Str → Option Int
+  | [] => none
+  | c :: r =>
+    if c = '-' then (parseNat? r).map (fun (n : Nat) => -(Int.ofNat n))
+    else if c = '+' then (parseNat? r).map Int.ofNat
+    else (parseNat? (c :: r)).map Int.ofNat
+
+/-- `int(s)` for a `str` of the form `[+-]?[0-9]+`; every other string is a `ValueError`.  DOMAIN: ASCII strings without
+    whitespace and underscores (Python also accepts `" 1"`, `"1_0"`, non-ASCII digits). -/
+def intOfStr (s : Str) : Except Exc4 Int :=
+  match intOfStr? s with
+  | some i => .ok i
+  | none => .error .value
+
+/-- `s.split(sep)` for a one-character separator -/
+def split1 (sep : Char) : Str → List Str
+  | [] => [[]]
+  | c :: cs =>
+    if c = sep then [] :: split1 sep cs
+    else match split1 sep cs with
+      | h :: t => (c :: h) :: t
+      | [] => [[c]]
+
+/-- the characters of a `str` as one-character strings (what iterating over a `str` yields) -/
+def strChars (s : Str) : List Str := s.map (fun c => [c])
+
+/-- a dictionary key that is a `str`, a `tuple` of ints, or something else (`isinstance` dispatch) -/
+inductive PyKey where
+  | str (s : List Char)
+  | tup (t : List Int)
+  | other
+  deriving DecidableEq, Repr
+
+/-- `d.keys()` / iterating over `d`, `d.values()` -/
+def dictKeys {κ ν : Type} (d : Dict κ ν) : List κ := d.map (fun p => p.1)
+def dictValues {κ ν : Type} (d : Dict κ ν) : List ν := d.map (fun p => p.2)
+
+/-- `d[k]`: `KeyError` for a missing key -/
+def dictGetE {κ ν : Type} [BEq κ] : Dict κ ν → κ → Except Exc4 ν
+  | [], _ => .error .key
+  | (k', v) :: rest, k => if k' == k then .ok v else dictGetE rest k
+
+/-- `d.get(k, default)` -/
+def dictGetD {κ ν : Type} [BEq κ] : Dict κ ν → κ → ν → ν
+  | [], _, dflt => dflt
+  | (k', v) :: rest, k, dflt => if k' == k then v else dictGetD rest k dflt
+
+/-- a dict with tuple keys / with `str` keys where `str | tuple` keys are expected (the same Python object) -/
+def dictTupKeys {ν : Type} (d : Dict (List Int) ν) : Dict PyKey ν := d.map (fun p => (PyKey.tup p.1, p.2))
+def dictStrKeys {ν : Type} (d : Dict (List Char) ν) : Dict PyKey ν := d.map (fun p => (PyKey.str p.1, p.2))
+
+/-- `Counter(xs)` for a list: one entry per distinct element in order of first occurrence, with its multiplicity -/
+def counterOfList {κ : Type} [BEq κ] (xs : List κ) : Counter κ :=
+  xs.foldl (fun c x => dictSet c x (counterGet c x + 1)) []
+-- --- end T4
+
 end OQ.Py
